@@ -785,6 +785,12 @@ func GenC10(seed uint64, thorough bool, maxDoc int) *C10Case {
 	c.DriftMs = []int64{1000, 60000, 86400000}[r.Intn(3)]
 	c.FutureMs = []int64{500, 60000, 86400000}[r.Intn(3)]
 	c.ClockMs = int64(r.Intn(100000)) + 200000000 // well after the epoch of the fake clock so that past offsets stay positive
+	calendar := r.Bool(0.04)
+	if calendar {
+		// the request arrives at 2000-03-01 00:30 (+ up to 10 minutes); see the calendar documents below
+		c.ClockMs = 60*86400000 + 30*60000 + int64(r.Intn(600000))
+		c.DriftMs, c.FutureMs = 86400000, 86400000
+	}
 	c.Gzip = r.Bool(0.25)
 	c.StoreFails = r.Bool(0.1)
 	n := r.Range(0, 9)
@@ -821,6 +827,13 @@ func GenC10(seed uint64, thorough bool, maxDoc int) *C10Case {
 				l.TimeFormat = []string{"es", "rfc3339", "rfc3339nano", "garbage"}[r.Intn(4)]
 				offs := []int64{0, -c.DriftMs - 1000, -c.DriftMs, -c.DriftMs + 1000, c.FutureMs - 1000, c.FutureMs, c.FutureMs + 1000, -5, 7, -c.DriftMs * 3}
 				l.OffsetMs = offs[r.Intn(len(offs))]
+				if calendar && r.Bool(0.5) {
+					// days that do not exist (2000 is a leap year: February has 29 days) and one that does: a time that
+					// names no instant does not parse, whatever a lenient date arithmetic would make of it
+					l.AbsTime = []string{"2000-02-30 00:10:00.000", "2000-02-31 00:05:00.000", "2000-02-30T00:10:00Z", "2000-02-29 23:50:00.000", "2000-02-30 00:10:00",
+						// more than nine fractional digits: still 65 ms past the second, not 651
+						"2000-03-01 00:20:00.0651402828"}[r.Intn(6)]
+				}
 				if r.Bool(0.04) {
 					l.AbsTime = []string{"2400-01-01T00:00:00Z", "2400-01-01 00:00:00.000", "2262-04-12T00:00:00Z", "9999-12-31T23:59:59.999999999Z", "1600-01-01T00:00:00Z", "0001-01-01 00:00:00.000", "1677-09-21T00:12:43Z"}[r.Intn(7)]
 				}
